@@ -118,3 +118,51 @@ Proof.
   replace (132 - length rest)%nat with ((132 - length bs) + z)%nat by (unfold blen in Hl; lia).
   rewrite repeat_app, <- app_assoc, skipn_repeat. symmetry. exact Hdec.
 Qed.
+
+(* ================================================================ pallas' wrapper *)
+Lemma count_leading_headnz x l : headnz x l -> count_leading x l = O.
+Proof. destruct l as [|c r]; [reflexivity|]. cbn. intros H. destruct (c =? x) eqn:E; [lia|reflexivity]. Qed.
+
+Lemma b58_encode_split bs :
+  let z := count_leading 0 bs in
+  b58_encode bs = repeat 49 z ++ b58_encode (skipn z bs) /\ headnz 49 (b58_encode (skipn z bs)).
+Proof.
+  cbv zeta. destruct (leading_decomp 0 bs) as [_ Hnz].
+  set (z := count_leading 0 bs) in *. set (rest := skipn z bs) in *.
+  assert (E : b58_encode rest = map b58_char (strip_leading 0 (digits 58 (Z.to_nat (blen rest * 138 / 100 + 1)) (val 256 rest)))).
+  { unfold b58_encode. rewrite (count_leading_headnz 0 rest Hnz). reflexivity. }
+  split.
+  - unfold b58_encode at 1. fold z. fold rest. rewrite E. reflexivity.
+  - rewrite E. apply chars_headnz; [apply strip_Forall, digits_range; lia|apply strip_headnz].
+Qed.
+
+(* the crate is only ever called on text without a leading '1': it cannot panic *)
+Lemma b58_decode_no_panic s : headnz 49 s -> is_panic (b58_decode s) = false.
+Proof.
+  intros H. unfold b58_decode. rewrite (count_leading_headnz 49 s H).
+  destruct (map_opt b58_digit (skipn 0 s)); [|reflexivity].
+  destruct (_ >=? two1056); [reflexivity|]. cbn [Nat.ltb Nat.leb]. reflexivity.
+Qed.
+
+Lemma pallas_decode_never_panics s : is_panic (pallas_decode_base58 s) = false.
+Proof.
+  unfold pallas_decode_base58. destruct (leading_decomp 49 s) as [_ Hnz].
+  pose proof (b58_decode_no_panic _ Hnz) as H.
+  destruct (b58_decode (skipn (count_leading 49 s) s)); try reflexivity; [|discriminate].
+  destruct (_ <? _)%nat; reflexivity.
+Qed.
+
+Theorem pallas_b58_roundtrip_proof bs : bytes_wf bs -> blen bs <= 132 ->
+  pallas_decode_base58 (b58_encode bs) = Ok bs.
+Proof.
+  intros Hw Hl. destruct (b58_encode_split bs) as [E Hnz]. destruct (leading_decomp 0 bs) as [Hdec _].
+  set (z := count_leading 0 bs) in *. set (rest := skipn z bs) in *.
+  assert (HL : (z + length rest = length bs)%nat).
+  { pose proof (f_equal (@length Z) Hdec) as HL. rewrite app_length, repeat_length in HL. lia. }
+  assert (Hr : bytes_wf rest).
+  { rewrite Hdec in Hw. apply Forall_app in Hw as [_ Hw]. exact Hw. }
+  unfold pallas_decode_base58. rewrite E, count_repeat by exact Hnz. rewrite skipn_repeat.
+  rewrite b58_roundtrip_proof; [|exact Hr|unfold blen in *; lia].
+  assert (Hn : (132 <? z + length rest)%nat = false) by (apply Nat.ltb_ge; unfold blen in Hl; lia).
+  rewrite Hn. f_equal. symmetry. exact Hdec.
+Qed.
